@@ -6,11 +6,14 @@ Four comparisons per history (the first two are the shared gateway-family body, 
   3. Lean *specification* (`SPEC` driver command = specOp / specNotifies of Model/SpecTree.lean)
      vs the real gateway's tree and callback count after each op
   4. a second real run with a raising event callback: every observation must be identical
+  5. instrumented Lean model (`CBT` = tstep of Model/GatewayTraced.lean): the tree recorded at each callback
+     vs the tree the real callback reads from inside
 """
 import itertools
 import json
 import multiprocessing
 import os
+import re
 
 from . import common, gw, gw_spec, gwfam
 from .common import digest, enc_str
@@ -21,7 +24,8 @@ THEOREMS = [
     "MySensors.C04.save_restart_tree", "MySensors.C04.nodes_appear_only", "MySensors.C04.set_stores_last",
     "MySensors.C04.child_first_presentation_wins", "MySensors.C04.unknown_node_noop",
     "MySensors.C04.fallbacks", "MySensors.C04.refines_run", "MySensors.C04.callbacks_run",
-    "MySensors.C04.refines_run_new", "MySensors.C04.alert_keeps_tree",
+    "MySensors.C04.refines_run_new", "MySensors.C04.traced_erases", "MySensors.C04.callback_after_state",
+    "MySensors.C04.callback_sees_spec", "MySensors.C04.alert_keeps_tree",
 ]
 ASSUMPTIONS = [
     "Model/Gateway.lean mirrors __init__.py / handler.py / sensor.py (sampled by the correspondence through the "
@@ -30,19 +34,25 @@ ASSUMPTIONS = [
     "side condition of the per-line theorems: the smart-sleep burst of the 2.0/2.1 heartbeat response and the "
     "reply construction of firmware requests do not raise (C01); every other message needs none",
     "persistence abstracted as in C14 (file = persisted projection of the last successful save)",
-    "'the state seen inside the callback already reflects the message' and 'a raising callback changes nothing "
-    "else' are not theorems (the model's callback event carries no state and has no data flow back): they are "
-    "decided on the real code by the oracle callback-before-state and by the raising-callback rerun",
+    "'the state seen inside the callback already reflects the message' is a theorem about the instrumented "
+    "handlers of Model/GatewayTraced.lean (alert also records the tree of its argument); erasing the "
+    "instrumentation is proved to give the model; its recorded trees are compared with the tree the real "
+    "callback reads from inside (CBT command) and the oracle callback-before-state judges the real code directly",
+    "'a callback that raises changes nothing else' is not a theorem (the model has no data flow from the "
+    "callback back into the gateway): it is decided on the real code by rerunning every history with a raising "
+    "callback and demanding identical observations",
 ]
 
 CFG = {"quick": 200, "thorough": 5000, "persist": ["none", "none", "json", "pickle"], "lengths": [12, 25, 40],
        "bias": {"pres_node": 1.5, "pres_child": 1.5, "set": 1.3, "internal": 1.5}, "malformed": 0.2}
 
 
+_VAL = re.compile(r" st=.*V\(\d")
+
+
 def relevant(hist, obs):
-    """non-trivial: at least one value stored in the final tree"""
-    import re
-    return bool(obs) and re.search(r"V\(\d", obs[-1].split(" st=", 1)[-1]) is not None
+    """non-trivial: a value is stored in the tree at some point of the history"""
+    return any(":V(" in o and _VAL.search(o) for o in obs)
 
 
 def alphabet(version):
@@ -96,7 +106,7 @@ def _work(args):
     fails = []
     if full:
         fails = [f for f in gw_spec.judge(hist, obs, version, kind, persist) if f["prop"] == "C04"]
-    summary = [(o.tree, len(o.cbs), o.exc, o.cb_state_ok) for o in obs]
+    summary = [(o.tree, len(o.cbs), o.exc, o.ret) for o in obs]
     return idx, ([o.line() for o in obs] if full else None), fails, raising_diff, summary
 
 
@@ -109,6 +119,34 @@ def run_real(cases, full):
         results = [_work(j) for j in jobs]
     results.sort(key=lambda r: r[0])
     return results
+
+
+def cbt_wire(version, kind, persist, hist):
+    return gw.gw_wire(version, kind, persist).replace("G ", "CBT ", 1) + " " + " / ".join(gw.op_wire(o) for o in hist)
+
+
+def raising_differs(version, kind, persist, hist):
+    obs, _ = gw.run_history(hist, version, kind, persist)
+    obs_r, _ = gw.run_history(hist, version, kind, persist, raising_cb=True)
+    return any(a.line() != b.line() or a.tree != b.tree for a, b in zip(obs, obs_r))
+
+
+def shrink_raising(version, kind, persist, hist):
+    cur = list(hist)
+    budget = 80
+    i = 0
+    while i < len(cur) and budget > 0:
+        cand = cur[:i] + cur[i + 1:]
+        budget -= 1
+        try:
+            ok = bool(cand) and raising_differs(version, kind, persist, cand)
+        except Exception:  # noqa: BLE001
+            ok = False
+        if ok:
+            cur = cand
+        else:
+            i += 1
+    return cur
 
 
 def add_failure(res, key, what, replay):
@@ -125,9 +163,12 @@ def check_cases(cases, results, driver, res, full):
         if raising_diff is not None:
             res.count("oracle:raising-callback-changes-behaviour")
             j, a, b = raising_diff
-            add_failure(res, {"kind": "raising-callback-changes-behaviour"},
-                        f"op {j}: with a raising callback the observation is {b!r}, without {a!r}",
-                        dict(rep, hist=rep["hist"][: j + 1], raising=True))
+            key = {"kind": "raising-callback-changes-behaviour"}
+            small = hist[: j + 1]
+            if not any(x["key"] == key for x in res.oracle_failures):
+                small = shrink_raising(version, kind, persist, small)
+            add_failure(res, key, f"op {j}: with a raising callback the observation is {b!r}, without {a!r}",
+                        dict(rep, hist=[gwfam.encode_op(o) for o in small], raising=True))
         for f in fails:
             res.count("oracle:" + f["key"]["kind"])
             add_failure(res, f["key"], f["what"], dict(rep, hist=rep["hist"][: f["at"] + 1]))
@@ -171,6 +212,35 @@ def check_cases(cases, results, driver, res, full):
                                                 "op": gw.op_wire(case[3][bad[0]])[:200] if case[3] else ""},
                                        "model": bad[1], "impl": bad[2]})
         res.extra["spec_traces_validated"] = res.extra.get("spec_traces_validated", 0) + ok
+    # --- trees recorded by the instrumented model at callbacks vs the tree the real callback reads ---
+    try:
+        out2 = driver.run([cbt_wire(c[0], c[1], c[2], c[3]) for c in cases])
+    except Exception as exc:  # noqa: BLE001
+        res.corr_diffs.append({"name": "C04-cbt-driver", "case": "driver", "model": str(exc)[:300], "impl": ""})
+        out2 = None
+    if out2 is not None:
+        ok = 0
+        for case, r, line in zip(cases, results, out2):
+            summary = r[4]
+            parts = line.split("|") if case[3] else []
+            bad = None
+            if len(parts) != len(summary):
+                bad = (0, line[:200], f"{len(summary)} ops")
+            else:
+                for j, (part, (_, _, exc, ret)) in enumerate(zip(parts, summary)):
+                    if exc is not None:
+                        break
+                    if part != ("-" if ret is None else ret):
+                        bad = (j, part[:300], str(ret)[:300])
+                        break
+            if bad is None:
+                ok += 1
+            else:
+                res.corr_diffs.append({"name": "C04-in-callback-tree",
+                                       "case": {"case": case[4], "version": case[0], "kind": case[1],
+                                                "persist": case[2], "op_index": bad[0]},
+                                       "model": bad[1], "impl": bad[2]})
+        res.extra["in_callback_traces_validated"] = res.extra.get("in_callback_traces_validated", 0) + ok
     if not full or out is None:
         return
     # --- the gateway model against the real gateway through the C04 projection -----------------
@@ -218,7 +288,7 @@ def run(tier, seed, driver):
     res.rule = ("(a) state-aware random histories over all versions/kinds, without and with json/pickle persistence "
                 "(re-presentation, values before presentation, several nodes interleaved, version-dependent "
                 "handlers, malformed lines, controller calls, save/stop/restart); non-trivial = a value is stored "
-                "in the final tree; (b) every history of length <= depth over a 12-line alphabet for versions 1.4 "
+                "in the tree at some point; (b) every history of length <= depth over a 12-line alphabet for versions 1.4 "
                 "and 2.2; non-trivial = at least one callback; every history is also rerun with a raising callback "
                 "and replayed through the Lean specification (SPEC); distinct by op script")
     return res
